@@ -112,3 +112,5 @@ def bitlen(m):
 
 def str_to_int(s):
     return int(s)
+def size(x):
+    return len(x)
